@@ -267,21 +267,44 @@ fn write_key(vk: &VerifyingKey<ToyF, RCS>, fmt: SerdeFormat) -> FixW<BUF> {
     w
 }
 
-fn input() -> ([u8; BUF], usize) {
+/// pins (counterexample extraction, see C17_K.py: Kani's concrete playback of the unpinned harnesses needs > 12 GB):
+/// 0 = none (the registered harness); 1 = one canonical key with pairwise distinct field bytes followed by trailing
+/// bytes, len = BUF; 2 = the same key, len = its exact length; 3 = all bytes symbolic, len = BUF (playback feasible)
+pub const PIN_K: u8 = 2;
+pub const PIN_FIX: u8 = 0x11;
+pub const PIN_PERM: u8 = 0x22;
+pub const PIN_TRAIL: u8 = 0x33;
+fn input_pinned(f: u8, pin: u8) -> ([u8; BUF], usize) {
     let buf: [u8; BUF] = any();
     let len: usize = any();
     assume(len <= BUF);
+    if pin == 1 || pin == 2 {
+        assume(buf[0] == 3 && buf[1] == PIN_K && buf[2] == 1 && buf[3] == 0 && buf[4] == 0 && buf[5] == 0);
+        if f == 0 {
+            assume(buf[6] == PIN_FIX && buf[7] == PIN_PERM && buf[8] == PIN_TRAIL && buf[9] == PIN_TRAIL && buf[10] == PIN_TRAIL);
+        } else {
+            assume(buf[6] == PIN_FIX && buf[7] == PIN_FIX ^ CHECK_MASK && buf[8] == PIN_PERM && buf[9] == PIN_PERM ^ CHECK_MASK && buf[10] == PIN_TRAIL);
+        }
+        assume(len == if pin == 1 { BUF } else if f == 0 { 8 } else { 10 });
+    }
+    if pin == 3 {
+        assume(len == BUF);
+    }
     (buf, len)
 }
 
 /// bytes -> key -> bytes: for every accepted buffer b, `write` of the decoded key reproduces exactly the
 /// consumed prefix of b (same length, same bytes).
-fn read_then_write(f: u8) {
-    let (buf, len) = input();
+fn read_then_write(f: u8, pin: u8) {
+    let (buf, len) = input_pinned(f, pin);
     let fmt = format_of(f);
     if let Some((vk, consumed)) = read_key(&buf[..len], fmt) {
-        crate::vcover!(consumed == len, "a key is accepted, the reader is left empty");
-        crate::vcover!(consumed < len, "a key is accepted with a trailing byte left in the reader");
+        if pin == 0 {
+            crate::vcover!(consumed == len, "a key is accepted, the reader is left empty");
+        }
+        if pin == 0 {
+            crate::vcover!(consumed < len, "a key is accepted with a trailing byte left in the reader");
+        }
         let w = write_key(&vk, fmt);
         assert!(!w.overflow, "write emits more bytes than the longest accepted key");
         assert!(w.n == consumed, "write emits a different number of bytes than read consumed");
@@ -295,13 +318,19 @@ fn read_then_write(f: u8) {
 /// consumed prefix b[..c] of the buffer vk was decoded from, by `read_then_write` — are accepted by
 /// `read_from_cs`, consumed entirely, and decode to the same k and the same commitments. (With
 /// `read_then_write` applied to the buffer b[..c] itself this gives write(read(write(vk))) == write(vk).)
-fn write_then_read(f: u8) {
-    let (buf, len) = input();
+fn write_then_read(f: u8, pin: u8) {
+    let (buf, len) = input_pinned(f, pin);
     let fmt = format_of(f);
     if let Some((vk, consumed)) = read_key(&buf[..len], fmt) {
-        crate::vcover!(consumed < len, "decoded from a buffer with a trailing byte");
-        crate::vcover!(vk.get_domain().k() == 4 && vk.fixed_commitments()[0] == RCom(0xA7), "k = 4 (the largest the reader lets through), some commitment value");
-        crate::vcover!(vk.get_domain().k() == 0 && vk.permutation().commitments()[0] == RCom(0x3C), "k = 0, some commitment value");
+        if pin == 0 {
+            crate::vcover!(consumed < len, "decoded from a buffer with a trailing byte");
+        }
+        if pin == 0 {
+            crate::vcover!(vk.get_domain().k() == 4 && vk.fixed_commitments()[0] == RCom(0xA7), "k = 4 (the largest the reader lets through), some commitment value");
+        }
+        if pin == 0 {
+            crate::vcover!(vk.get_domain().k() == 0 && vk.permutation().commitments()[0] == RCom(0x3C), "k = 0, some commitment value");
+        }
         match read_key(&buf[..consumed], fmt) {
             None => panic!("read refuses what write produced"),
             Some((vk2, consumed2)) => {
@@ -355,10 +384,22 @@ macro_rules! vk_harness {
         }
     };
 }
-vk_harness!(vk_read_then_write_processed, read_then_write, 0);
-vk_harness!(vk_read_then_write_rawbytes, read_then_write, 1);
-vk_harness!(vk_write_then_read_processed, write_then_read, 0);
-vk_harness!(vk_write_then_read_rawbytes, write_then_read, 1);
+vk_harness!(vk_read_then_write_processed, read_then_write, 0, 0);
+vk_harness!(vk_read_then_write_rawbytes, read_then_write, 1, 0);
+vk_harness!(vk_write_then_read_processed, write_then_read, 0, 0);
+vk_harness!(vk_write_then_read_rawbytes, write_then_read, 1, 0);
+vk_harness!(vk_read_then_write_processed_pin_1, read_then_write, 0, 1);
+vk_harness!(vk_read_then_write_processed_pin_2, read_then_write, 0, 2);
+vk_harness!(vk_read_then_write_processed_pin_3, read_then_write, 0, 3);
+vk_harness!(vk_read_then_write_rawbytes_pin_1, read_then_write, 1, 1);
+vk_harness!(vk_read_then_write_rawbytes_pin_2, read_then_write, 1, 2);
+vk_harness!(vk_read_then_write_rawbytes_pin_3, read_then_write, 1, 3);
+vk_harness!(vk_write_then_read_processed_pin_1, write_then_read, 0, 1);
+vk_harness!(vk_write_then_read_processed_pin_2, write_then_read, 0, 2);
+vk_harness!(vk_write_then_read_processed_pin_3, write_then_read, 0, 3);
+vk_harness!(vk_write_then_read_rawbytes_pin_1, write_then_read, 1, 1);
+vk_harness!(vk_write_then_read_rawbytes_pin_2, write_then_read, 1, 2);
+vk_harness!(vk_write_then_read_rawbytes_pin_3, write_then_read, 1, 3);
 vk_harness!(vk_bytes_length_processed, bytes_length_is_written_length, 0, false);
 vk_harness!(vk_bytes_length_rawbytes, bytes_length_is_written_length, 1, false);
 vk_harness!(vk_bytes_length_processed_pin, bytes_length_is_written_length, 0, true);
@@ -519,8 +560,8 @@ pub fn blake2b_update_recording<'a>(s: &'a mut blake2b_simd::State, input: &[u8]
 /// serialises the commitments with): input = write[..6 + fixed] ++ le32(#permutation commitments) ++ write[6 + fixed..] ++ renderings.
 /// Natively (replay): the recording oracle does not exist; the body shows the same defect as a COLLISION on
 /// the real Blake2b: a field of the written key whose every admissible value gives the same `transcript_repr`.
-fn transcript_binds_written(f: u8) {
-    let (buf, len) = input();
+fn transcript_binds_written(f: u8, pin: u8) {
+    let (buf, len) = input_pinned(f, pin);
     let fmt = format_of(f);
     #[cfg(kani)]
     unsafe {
@@ -528,7 +569,9 @@ fn transcript_binds_written(f: u8) {
         HASH_IN_LEN = 0;
     }
     if let Some((vk, consumed)) = read_key(&buf[..len], fmt) {
-        crate::vcover!(true, "a key is accepted");
+        if pin == 0 {
+            crate::vcover!(true, "a key is accepted");
+        }
         let w = write_key(&vk, SerdeFormat::RawBytesUnchecked);
         assert!(!w.overflow);
         #[cfg(kani)]
@@ -590,7 +633,7 @@ fn native_collision_search(vk: &VerifyingKey<ToyF, RCS>, fmt: SerdeFormat, _cons
 }
 
 macro_rules! tr_harness {
-    ($name:ident, $f:expr) => {
+    ($name:ident, $f:expr, $pin:expr) => {
         #[cfg_attr(kani, kani::proof)]
         #[cfg_attr(kani, kani::unwind(6))]
         #[cfg_attr(kani, kani::stub(std::fmt::format, crate::stubs::format_stub))]
@@ -600,8 +643,10 @@ macro_rules! tr_harness {
         #[cfg_attr(kani, kani::stub(blake2b_simd::State::update, crate::h_roundtrip::blake2b_update_recording))]
         #[cfg_attr(kani, kani::stub(blake2b_simd::State::finalize, crate::stubs::blake2b_finalize_stub))]
         pub fn $name() {
-            transcript_binds_written($f)
+            transcript_binds_written($f, $pin)
         }
     };
 }
-tr_harness!(vk_transcript_binds_written_rawbytes, 1);
+tr_harness!(vk_transcript_binds_written_rawbytes, 1, 0);
+tr_harness!(vk_transcript_binds_written_rawbytes_pin_1, 1, 1);
+tr_harness!(vk_transcript_binds_written_rawbytes_pin_3, 1, 3);
